@@ -341,9 +341,15 @@ def _history_cases(draw, tier):
             ops.append(dict(op="noise", value=draw(st.one_of(
                 st.just("none"), st.just("zero"), _noise()))))
         elif kind == "chan":
-            ops.append(dict(op="chan", chan=draw(cond_matrix(Nr, Nt, 2.0))))
+            ops.append(dict(op="chan", chan=draw(cond_matrix(Nr, Nt, 2.0)),
+                            # how the new channel is handed over: a new
+                            # array, the SAME array object refilled, or
+                            # (MISO schemes) a 1-D vector
+                            how=draw(st.sampled_from(["new", "new", "inplace",
+                                                      "oned"]))))
         else:
-            ops.append(dict(op="use"))
+            ops.append(dict(op=draw(st.sampled_from(["use", "use",
+                                                     "decode_only"]))))
     ops.append(dict(op="use"))
     return dict(part="history", scheme=scheme,
                 chan=draw(cond_matrix(Nr, Nt, 2.0)),
@@ -588,6 +594,17 @@ def _check_roundtrip(case, ctx):
             raise Violation("mmse_decode_bound", "|decode_mmse - x| = %.3e > "
                             "s2/(smin^2+s2)*|x| = %.3e (s2=%.3e)" %
                             (dist, bound, s2), tags)
+        # ... and not SMALLER than the bias of the MMSE filter allows: the
+        # error operator s2 (H^H H + s2 I)^-1 has singular values between
+        # s2/(smax^2+s2) and s2/(smin^2+s2), so a decoder that ignores the
+        # noise variance (plain zero forcing) is not the MMSE decoder
+        low = s2 / (smax2 + s2) * xn
+        ctx.err("mmse_decode_deficit", max(0.0, low - dist), slack + 1e-9 * low)
+        if not (dist >= low * (1 - 1e-9) - slack):
+            raise Violation("mmse_decode_lower_bound", "|decode_mmse - x| = "
+                            "%.3e < s2/(smax^2+s2)*|x| = %.3e (s2=%.3e): the "
+                            "noise variance is not used" % (dist, low, s2),
+                            tags)
 
 
 # ----------------------------------------------------------------------------
@@ -710,12 +727,25 @@ def _check_history(case, ctx):
     had_noise = False
     n_use = 0
     with _tagged(tags):
-        obj = cls(H.copy())
+        Hbuf = H.copy()
+        obj = cls(Hbuf)
         for i, op in enumerate(case["ops"]):
             if op["op"] == "chan":
                 H, _, s, _ = build_cond_matrix(op["chan"])
                 kappa = float(s.max() / s.min())
-                obj.set_channel_matrix(H.copy())
+                how = op.get("how", "new")
+                if how == "inplace" and Hbuf.shape == H.shape and \
+                        Hbuf.dtype == H.dtype and Hbuf.flags.writeable:
+                    Hbuf[...] = H
+                    obj.set_channel_matrix(Hbuf)
+                    ctx.label("hist_op:chan_same_array_refilled")
+                elif how == "oned" and scheme in ("MRT", "Alamouti") and \
+                        H.shape[0] == 1:
+                    obj.set_channel_matrix(H[0].copy())
+                    ctx.label("hist_op:chan_1d")
+                else:
+                    Hbuf = H.copy()
+                    obj.set_channel_matrix(Hbuf)
                 ctx.label("hist_op:chan")
             elif op["op"] == "noise":
                 v = op["value"]
@@ -750,8 +780,14 @@ def _check_history(case, ctx):
                 fresh = cls(H.copy())
                 if scheme in _NOISE_SCHEMES:
                     fresh.set_noise_var(noise)
-                e1 = np.asarray(obj.encode(x.copy()))
                 e2 = np.asarray(fresh.encode(x.copy()))
+                if op["op"] == "decode_only":
+                    # the object only RECEIVES: the data was encoded by
+                    # another object (the transmitter) for the same channel
+                    ctx.label("hist_op:decode_only")
+                    e1 = e2
+                else:
+                    e1 = np.asarray(obj.encode(x.copy()))
                 y = H.dot(e1)
                 d1 = np.asarray(obj.decode(y.copy()))
                 d2 = np.asarray(fresh.decode(H.dot(e2)))
